@@ -159,4 +159,16 @@ pub fn run(r: &mut Runner) {
             }
         });
     }
+    {
+        let gs = crate::fx::generic_stream(if quick { 400000 } else { 40000000 }, 108, -60, 200);
+        let ngs = gs.len();
+        r.notes.push(format!("generic stream for floor/ceil/trunc/round/fract: {} operands of a fixed Weyl sequence (full-size mantissas in both words, exponents -60..200)", ngs));
+        r.par("generic stream: floor/ceil/trunc/round/fract", ngs.div_ceil(4096), ngs as u64, |c, l| {
+            for i in (c * 4096)..((c + 1) * 4096).min(ngs) {
+                for call in 0..5 {
+                    rec.record(l, (1u64 << 58) + (i * 5 + call) as u64, judge(call, gs[i]));
+                }
+            }
+        });
+    }
 }
